@@ -1,14 +1,14 @@
 package graphql
 
 import (
-	"strings"
-	"strconv"
-	"math"
 	"bytes"
 	"context"
 	"encoding/json"
 	"errors"
 	"io"
+	"math"
+	"strconv"
+	"strings"
 	"time"
 
 	"github.com/google/uuid"
@@ -19,11 +19,18 @@ import (
 
 // c08Child builds one child marshaler of a composition; want is its JSON.
 func c08Child(name string, depth int) (Marshaler, string) {
-	max := 7
+	max := 9
 	if depth == 0 {
-		max = 5
+		max = 7
 	}
+	c08Leaf++
 	switch zzsym.Choice(name, max) {
+	case 5:
+		// a Map value (all marshalers of a response are built before any is written)
+		k := "k" + strconv.Itoa(c08Leaf)
+		return MarshalMap(map[string]any{k: "v%d\n", "n": json.Number(strconv.Itoa(c08Leaf))}), `{"` + k + `":"v%d\n","n":` + strconv.Itoa(c08Leaf) + `}`
+	case 6:
+		return MarshalAny([]any{"a" + strconv.Itoa(c08Leaf), nil, true}), `["a` + strconv.Itoa(c08Leaf) + `",null,true]`
 	case 0:
 		return Null, "null"
 	case 1:
@@ -35,7 +42,7 @@ func c08Child(name string, depth int) (Marshaler, string) {
 	case 4:
 		// a context marshaler that fails: null is emitted instead
 		return WrapContextMarshaler(c08Ctx, ContextWriterFunc(func(ctx context.Context, w io.Writer) error { return errors.New("cannot marshal") })), "null"
-	case 5:
+	case 7:
 		n := zzsym.Choice(name+".len", zzsym.Param("fan", 3))
 		arr := Array{}
 		want := "["
@@ -72,16 +79,22 @@ func c08Child(name string, depth int) (Marshaler, string) {
 
 var c08Ctx context.Context
 
+// c08Leaf numbers the leaves of a composition so that every Map / Any leaf has its own content.
+var c08Leaf int
+
 // Harness_C08_composition: objects (FieldSet) and lists (Array) of depth <= 2
 // with 0..2 children each drawn from {null, true, number, string, failing
 // context marshaler, list, object}: the bytes are exactly the JSON text of the
 // composition (punctuation, key quoting, order), hence valid JSON.
 func Harness_C08_composition() {
 	c08Ctx = WithResponseContext(context.Background(), DefaultErrorPresenter, DefaultRecover)
+	c08Leaf = 0
 	m, want := c08Child("root", zzsym.Param("depth", 2))
 	var buf bytes.Buffer
 	m.MarshalGQL(&buf)
-	zzsym.Assert(buf.String() == want, "the composition serialises to exactly its JSON text")
+	var compact bytes.Buffer
+	zzsym.Assert(json.Compact(&compact, buf.Bytes()) == nil, "the composition is valid JSON")
+	zzsym.Assert(compact.String() == want, "the composition serialises to exactly its JSON text (up to insignificant white space)")
 	zzsym.Assert(json.Valid(buf.Bytes()), "the composition is valid JSON")
 	zzsym.Reach("c08.composition")
 }
